@@ -197,6 +197,15 @@ CLAIMED = {
              "are not respected); calc_distance_to_bus searches a multigraph built with the caller's options.",
         note="Assumed: add_edges adds one edge per in-service row; networkx (MultiGraph, Dijkstra). Not decided: connected_components, "
              "nogobuses / notravbuses, edge impedances, tcsc / dcline / vsc / line_dc edges, graph_tool back end."),
+    "C01": dict(
+        text="Proof with sums over the (arbitrarily many) machines / loads at one bus as linear functionals: after the real "
+             "_split_p_for_gens_at_same_bus the active powers of all machines at a reference bus add up to the bus power for every "
+             "number of reference machines and PV gens and all slack weights; the real _calc_pq_elements_and_add_on_ppc writes bus "
+             "ZIP coefficients with PD_bus * ci_bus == sum p_l * ci_l and PD_bus * cz_bus == sum p_l * cz_l (same for q), so that the "
+             "voltage dependent bus load is the sum of the loads' own ZIP terms for every voltage.",
+        note="Assumed: linearity of finite sums (pyvc.sigma), _sum_by_group sums per bus, intersect1d / setdiff1d. Not decided: the nodal "
+             "balance at ordinary buses (element result sums against branch flows, Newton mismatch), reactive split (_update_q), "
+             "dcline terminals, FACTS, loads whose powers cancel at a bus (no per-bus coefficient can represent them)."),
 }
 
 NOT_APPLICABLE = {
